@@ -72,15 +72,27 @@ class DesignPartitions():
 
     def get_source_factors(self):
         """Source factors are depended on by at least one noncomplex
-        derived factor in the crossed factors.
+        derived factor in the crossed factors, directly or through
+        other derived factors.
 
         """
         source_factors = []
-        for derived_factor in self.get_crossed_noncomplex_derived_factors():
+        dependents = self.get_crossed_noncomplex_derived_factors()
+        for derived_factor in dependents:
             for source_factor in derived_factor.levels[0].window.factors:
                 if source_factor not in source_factors:
                     source_factors.append(source_factor)
+                    if isinstance(source_factor, DerivedFactor) and source_factor not in dependents:
+                        dependents.append(source_factor)
         return source_factors
+
+    def get_uncrossed_derived_source_factors(self):
+        """Derived source factors outside the crossing; their levels are
+        determined by their own source factors.
+
+        """
+        crossed = self.get_crossed_noncomplex_factors()
+        return list(filter(lambda f: isinstance(f, DerivedFactor) and f not in crossed, self.get_source_factors()))
 
     def get_uncrossed_basic_factors(self):
         """A basic factor is a non-derived factor."""
